@@ -26,6 +26,7 @@ def run(ctx, chk):
     chk.rule("C13.R3", "errors inside an expansion are reported at the use site", floor=1)
     chk.rule("C13.R4", "nesting depth of macro expansion is bounded", floor=1)
     chk.rule("C13.R5", "definition and use agree on the placeholder syntax", floor=1)
+    chk.rule("C13.R6", "parameters are matched as whole words: the pattern is \\b<one name or a group>\\b", floor=1)
     if "macro_use" not in GA.nts:
         chk.violation("C13.R1", "macro_use", "missing", "no macro_use nonterminal", GA.g["file"])
         return
@@ -90,6 +91,7 @@ def run(ctx, chk):
                 chk.violation("C13.R4", label, "unbounded-expansion-depth",
                               f"{label}: each nested macro use re-enters PreprocessorParser::parse natively (action -> parse -> action) and nothing bounds the depth: "
                               f"a chain m1 -> m2 -> ... -> mN of distinct macros recurses N parser activations deep and exhausts the stack for large N", where)
+    whole_word_rule(ctx, chk)
     # R5 placeholder syntax
     fm_def = fmt_strings(GA, "macro_def")
     fm_use = fmt_strings(GA, "macro_use")
@@ -118,3 +120,71 @@ def fmt_strings(G, nt):
     for p in G.productions(nt):
         walk(G.main_user_action(p["action"]).get("ast"))
     return out
+
+
+def whole_word_rule(ctx, chk):
+    """C13.R6: the regex that finds a parameter in the macro body is built from a format literal; the literal must anchor
+    the parameter on both sides with \\b.  If the hole receives several names joined with `|`, the alternation has to be
+    grouped: `\\b a|b|c \\b` parses as (\\ba)|(b)|(c\\b), so only the first name is anchored on the left and only the last on the
+    right, and the middle ones match inside longer words."""
+    GA = ctx.gram("preprocessor")
+    if "macro_def" not in GA.nts:
+        chk.undecided_("C13.R6", "macro_def", "nonterminal not found")
+        return
+    for k, p in enumerate(GA.productions("macro_def")):
+        ua = GA.main_user_action(p["action"])
+        where = f"{GA.g['file']}:{p['line']}"
+        found = []
+
+        def walk(n, loopvars):
+            if isinstance(n, dict):
+                lv = loopvars
+                if n.get("k") == "for":
+                    names = []
+
+                    def pat(q):
+                        if isinstance(q, dict):
+                            if q.get("k") == "ident":
+                                names.append(q["name"])
+                            for v in q.values():
+                                pat(v)
+                        elif isinstance(q, list):
+                            for v in q:
+                                pat(v)
+                    pat(n.get("pat"))
+                    lv = loopvars | set(names)
+                if n.get("k") == "macro" and n.get("name") == "format" and n.get("args") and n["args"][0].get("k") == "lit" and "\\b" in str(n["args"][0].get("v")):
+                    found.append((n, lv))
+                for v in n.values():
+                    walk(v, lv)
+            elif isinstance(n, list):
+                for v in n:
+                    walk(v, loopvars)
+        walk(ua.get("ast"), frozenset())
+        if not found:
+            chk.undecided_("C13.R6", "macro_def", "no \\b-anchored pattern literal found (parameters matched some other way)")
+            continue
+        for n, lv in found:
+            lit = n["args"][0]["v"]
+            args = n["args"][1:]
+            if lit.count("{}") != 1 or len(args) != 1:
+                chk.undecided_("C13.R6", "macro_def", f"pattern literal {lit!r} has {lit.count('{}')} holes")
+                continue
+            pre, post = lit.split("{}")
+            a = args[0]
+            while a.get("k") in ("ref", "un", "paren") and "e" in a:
+                a = a["e"]
+            joined = a.get("k") == "mcall" and a.get("m") == "join"
+            single = a.get("k") == "path" and len(a.get("segs", [])) == 1 and a["segs"][0] in lv
+            grouped = (pre.endswith("(") or pre.endswith("(?:")) and post.startswith(")")
+            anchored = pre.replace("(?:", "").replace("(", "").endswith("\\b") and post.replace(")", "").startswith("\\b")
+            if not anchored:
+                chk.violation("C13.R6", "macro_def", "not-anchored", f"the parameter pattern {lit!r} is not \\b-anchored on both sides: parameters are replaced inside longer words", where)
+            elif joined and not grouped:
+                chk.violation("C13.R6", "macro_def", "alternation-not-grouped",
+                              f"the pattern {lit!r} receives the parameter names joined with '|' without a group: it parses as (\\bp1)|(p2)|..|(pn\\b), so the first parameter also "
+                              f"matches as a prefix, the last as a suffix and the others anywhere inside a word (e.g. parameter `d` in `dec`)", where)
+            elif single or (joined and grouped):
+                chk.ok("C13.R6", "macro_def", f"{lit!r} with {'one parameter name' if single else 'a grouped alternation'}: whole-word match")
+            else:
+                chk.undecided_("C13.R6", "macro_def", f"argument of the pattern literal not recognised ({a.get('k')})")
